@@ -18,6 +18,10 @@ namespace TB
 /-- settleGame credits the participant's change (regenerated from table_engine_stage.go) -/
 theorem C01_settle_mode_fact : Facts.settleMode = "+= player.Changed" := by decide
 
+/-- no step of the engine swaps the live table for another object (only `CreateTable` assigns it): chips added by a call
+that takes no engine lock cannot be dropped with a table that is thrown away (D31; regenerated from the source) -/
+theorem C01_live_table_never_swapped_fact : Facts.teTableAssigned = ["CreateTable"] := by decide
+
 /-- **C01 — the ledger balances in every reachable state** (hence whenever no hand is in progress): for every table
 configuration and every sequence of operations and internal events, of any length, the bankrolls sum to what was
 brought in minus what departing players took with them. -/
